@@ -36,6 +36,9 @@ EqGroupFailed(e) ==
 Distinct(vs) == Cardinality({Canon(vs[i]) : i \in 1..Len(vs)})
 SetPermFailed(e) ==
   (IF Len(e.results) = 1 THEN {} ELSE {"C03.SetIndependentOfInsertionOrder"})
+  \* (orders: how many iteration orders were seen when members are told apart physically - text and precision of each number -
+  \*  over every permutation and repetition; the projection cannot tell tied members apart)
+  \cup (IF Has(e, "orders") /\ e.orders # 1 THEN {"C03.SetIndependentOfInsertionOrder"} ELSE {})
   \* (tied: inputs with one binary value at two precisions - equal rationals, unequal for cty, see the recorded trichotomy finding -
   \*  so how many members the set holds is not judged there; its iteration order still is)
   \cup (IF Has(e, "tied") \/ \A k \in 1..Len(e.results) : e.results[k].ok /\ Len(Elems(e.results[k].val)) = Distinct(e.input) THEN {} ELSE {"C03.SetHoldsDistinctInputs"})
